@@ -95,7 +95,16 @@ def diene_case(rng):
         except ValueError:
             continue
         break
-    cut = rng.choice(['none', 'first', 'second'])
+    cut = rng.choice(['none', 'first', 'second', 'thioether', 'thioether'])
+    if cut == 'thioether':
+        # an aryl thioether in front of the marked double bond ('Sc…': an upper-case atom directly followed by a lower-case
+        # one), uncut or with the methyl group cut off
+        plain = 'CSc1ccc(cc1)%sC=C%s%s' % (m[0], m[3], x)
+        with lib.quiet():
+            ref = found_pairs(pysmiles.read_smiles(plain, explicit_hydrogen=True))
+        s = rng.choice(['{[#A]}.{#A=%s}' % plain, '{[#A][#B]}.{#A=C[$],#B=[$]%s}' % plain[1:]])
+        return {'kind': 'stereo-diene', 's': s, 'plain': plain, 'cuts': [cut], 'all_atom': True, 'legacy': True,
+                'pairs': sorted([a, b, sorted(c)[0]] for (a, b), c in ref.items())}
     if cut == 'none':
         s = '{[#A]}.{#A=%s}' % plain
     elif cut == 'first':
